@@ -315,7 +315,8 @@ class Env:
             kw["global_repository"] = True
         if self.classes:
             kw["classes"] = self.classes
-        self.mm = metamodel_from_str(grammar(), **kw)
+        # optional: an abstract root rule with a match alternative - a model file may then be a plain number
+        self.mm = metamodel_from_str(("Top: Model | INT;\n" if cfg.get("prim_root") else "") + grammar(), **kw)
         self.snapshot = class_snapshot(self.classes)
         rec = self.rec
         base = base_provider(cfg["family"])
@@ -640,6 +641,7 @@ def draw_cfg(t, prop, nfiles):
         "tools": t.chance(1, 5, "tools"),
         "memo": t.chance(1, 5, "memo"),
         "global_repo": t.chance(1, 3, "global-repo"),
+        "prim_root": bool(classes) and t.chance(1, 8, "primitive-root-rule"),
     }
 
 
@@ -672,6 +674,22 @@ def run(ctx):
     # ---- census (fresh E1, strong recorder, no fault)
     e1 = Env(ctx, "census", w, cfg, strong=True)
     _mirror_resolved(ctx, e1)
+    if cfg["prim_root"] and cfg["family"] not in ("plain", "fqn"):
+        cfg["prim_root"] = False  # model-loading providers cannot take a primitive root (they need a model object)
+        e1 = Env(ctx, "census", w, cfg, strong=True)
+        _mirror_resolved(ctx, e1)
+    if cfg["prim_root"]:
+        # a model that is just a number: the root is an int, no object carries the end of construction
+        try:
+            v = e1.mm.model_from_str("42")
+            ctx.ev("primitive-root-load", repr(v))
+            ctx.probe("primitive-root-model")
+        except Exception as e:
+            ctx.violate(prop, "census-fails", cfgcls + "/primitive-root", f"loading '42' failed: {dump_error(e)}")
+            return
+        check_quiescence(ctx, e1, "after-success/primitive-root", "C14")
+        e1.rec.seq.clear()
+        e1.rec.counts.clear()
     nest_census = None
     # re-entrant loads are not generated with a global repository: the nested
     # model would share the repository with the outer models still under
